@@ -2,10 +2,11 @@
 # Like run_seeded.sh but leaves /repo untouched: the patch is applied to a scratch copy of
 # /repo/xyzpy and the checks are pointed at it with XSIM_REPO (use while something else,
 # e.g. a soak run, is using /repo).  Appends to /verif/seeded/RESULTS.tsv.
-cd /verif || exit 2
-out=${XSIM_SEEDED_OUT:-/verif/seeded/RESULTS.tsv}
+here="$(cd "$(dirname "${BASH_SOURCE[0]}")/.." && pwd)"   # works from a snapshot copy of /verif too
+cd "$here" || exit 2
+out=${XSIM_SEEDED_OUT:-$here/seeded/RESULTS.tsv}
 pattern="$1"; props="${2:-C01 C04 C05 C06 C08 C09 C10 C11 C12 C15 C16}"
-for d in /verif/seeded/$pattern; do
+for d in $here/seeded/$pattern; do
   id=$(basename $d)
   scratch=$(mktemp -d /dev/shm/xsim-seededc-XXXXXX)
   cp -r /repo/xyzpy $scratch/xyzpy
